@@ -1,6 +1,6 @@
 (* One entry point for the correspondence check: numeric opcode + wire value. *)
 From WS Require Import Base.Py.
-From WS Require Folding.Model TP.Model.
+From WS Require Folding.Model TP.Model Evaluate.Model.
 
 Definition dispatch (op : Z) (j : J) : J :=
   match op with
@@ -9,5 +9,8 @@ Definition dispatch (op : Z) (j : J) : J :=
   | 703 => Folding.Model.run_unfold j
   | 704 => Folding.Model.run_fold_unfold j
   | 901 => TP.Model.run_segment j
+  | 501 => Evaluate.Model.run_evaluate j
+  | 502 => Evaluate.Model.run_class_labels j
+  | 1201 => Evaluate.Model.run_summary j
   | _ => j_bad
   end%Z.
